@@ -3,6 +3,7 @@
 package main
 
 import (
+	"bytes"
 	"fmt"
 	"strconv"
 	"strings"
@@ -54,7 +55,12 @@ func genHist(g *hx.Gen, forceTwoStep bool, a, b int) {
 		pos = c * 64
 	}
 	xor := func(n int) {
-		ops = append(ops, "x:"+strconv.Itoa(n))
+		if r.Chance(1, 4) {
+			ops = append(ops, "i:"+strconv.Itoa(n)) // in place: dst = src
+			g.Stat("xor-in-place")
+		} else {
+			ops = append(ops, "x:"+strconv.Itoa(n))
+		}
 		src = append(src, r.Bytes(n)...)
 		if n == 0 {
 			g.Stat("xor-empty")
@@ -204,22 +210,86 @@ func gen(g *hx.Gen) {
 	}
 }
 
+// mutSet collects the names of caller-memory regions the code under test must not have written.
+type mutSet []string
+
+func (m *mutSet) add(names ...string) {
+	for _, n := range names {
+		dup := false
+		for _, x := range *m {
+			if x == n {
+				dup = true
+			}
+		}
+		if !dup && n != "" && n != "-" {
+			*m = append(*m, n)
+		}
+	}
+}
+func (m mutSet) String() string {
+	if len(m) == 0 {
+		return "-"
+	}
+	return strings.Join(m, ",")
+}
+
 func exec(line string) string {
 	o := hx.Parse(line)
+	var mut mutSet
 	switch o.Cmd {
 	case "hchacha":
-		out, err := chacha20.HChaCha20(o.Hex("key"), o.Hex("nonce"))
+		a := hx.NewArena()
+		key, nonce := a.In("key", o.Hex("key")), a.In("nonce", o.Hex("nonce"))
+		out, err := chacha20.HChaCha20(key, nonce)
+		mut.add(a.Check())
 		if err != nil {
-			return "err"
+			return "err mut=" + mut.String()
 		}
-		return hx.Hex(out)
+		res := hx.Hex(out)
+		// the result must not alias the inputs: overwrite them and look again
+		for i := range key {
+			key[i] ^= 0xff
+		}
+		for i := range nonce {
+			nonce[i] ^= 0xff
+		}
+		if hx.Hex(out) != res {
+			mut.add("out-aliases-input")
+		}
+		return res + " mut=" + mut.String()
 	case "hist":
-		c, err := chacha20.NewUnauthenticatedCipher(o.Hex("key"), o.Hex("nonce"))
+		// key and nonce: guarded inputs; after construction they are overwritten — the cipher must not
+		// keep a reference to the caller's key / nonce memory
+		kn := hx.NewArena()
+		key, nonce := kn.In("key", o.Hex("key")), kn.In("nonce", o.Hex("nonce"))
+		c, err := chacha20.NewUnauthenticatedCipher(key, nonce)
+		mut.add(kn.Check())
 		if err != nil {
-			return "err"
+			return "err mut=" + mut.String()
 		}
-		src := o.Hex("src")
+		for i := range key {
+			key[i] = byte(0xee ^ i)
+		}
+		for i := range nonce {
+			nonce[i] = byte(0x77 ^ i)
+		}
+		all := o.Hex("src")
+		// ONE src / dst buffer pair for the whole history (sized for the longest step, dst with extra room),
+		// scribbled between calls: results or cipher state that alias caller memory change the later outputs
+		maxLen := 0
+		for _, t := range o.List("ops") {
+			kind, arg, _ := strings.Cut(t, ":")
+			if kind != "s" {
+				if v, _ := strconv.Atoi(arg); v > maxLen {
+					maxLen = v
+				}
+			}
+		}
+		io := hx.NewArena()
+		srcBuf := io.InOut("src", make([]byte, maxLen))
+		dstBuf := io.Out("dst", maxLen+9)
 		outs := []string{"ok"}
+		step := 0
 		for _, t := range o.List("ops") {
 			kind, arg, _ := strings.Cut(t, ":")
 			v, err := strconv.ParseUint(arg, 10, 64)
@@ -231,12 +301,36 @@ func exec(line string) string {
 				if kind == "s" {
 					c.SetCounter(uint32(v))
 					res = "ok"
+					return
+				}
+				step++
+				n := int(v)
+				in := all[:n]
+				all = all[n:]
+				io.Scribble()
+				src := srcBuf[:n]
+				copy(src, in)
+				var dst []byte
+				if kind == "i" {
+					dst = src
 				} else {
-					in := src[:v]
-					src = src[v:]
-					dst := make([]byte, len(in))
-					c.XORKeyStream(dst, in)
-					res = hx.Hex(dst)
+					// dst is longer than src in every other step: only dst[:len(src)] may change;
+					// it is pre-filled with garbage (Scribble), never zeroed
+					dst = dstBuf[:n+(step%2)*9]
+				}
+				before := append([]byte(nil), dstBuf...)
+				c.XORKeyStream(dst, src)
+				res = hx.Hex(dst[:n])
+				mut.add(io.Check())
+				if kind != "i" {
+					if !bytes.Equal(src, in) {
+						mut.add("src")
+					}
+					if !bytes.Equal(dstBuf[n:], before[n:]) {
+						mut.add("dst.rest")
+					}
+				} else if !bytes.Equal(dstBuf, before) {
+					mut.add("dst.untouched")
 				}
 			})
 			if panicked {
@@ -245,7 +339,18 @@ func exec(line string) string {
 			}
 			outs = append(outs, res)
 		}
-		return strings.Join(outs, "|")
+		// nothing may have restored / used the caller's key and nonce memory
+		for i := range key {
+			if key[i] != byte(0xee^i) {
+				mut.add("key.late")
+			}
+		}
+		for i := range nonce {
+			if nonce[i] != byte(0x77^i) {
+				mut.add("nonce.late")
+			}
+		}
+		return strings.Join(outs, "|") + " mut=" + mut.String()
 	}
 	return "bad-op"
 }
